@@ -441,3 +441,26 @@ def compare_modes(prog, lay_n, lay_c, fails):
             elif all(isinstance(v, int) for v in rec.get('ops', [])) or k == 'expand':
                 if len(a) != len(b) or not all(same_insn(x, y) for x, y in zip(a, b)):
                     bad('modes', rec, 'operation differs between modes: %r vs %r' % (a, b))
+            elif k == 'insn' and len(a) == 1 and len(b) == 1:
+                # label-dependent immediate: the layouts differ between the modes, so the values do; what must NOT differ is how
+                # the immediate relates to its expression evaluated at the item's own offset in the same mode
+                roles = rv32.roles(rec['m'])
+                idx = next((i for i, r in enumerate(roles) if r.startswith('imm')), None)
+                if idx is None:
+                    continue
+
+                def deviation(ins, lay):
+                    m, ops = ins
+                    if m == rec['m']:
+                        got = ops[idx]
+                    elif rec['m'] == 'addi' and m == 'add' and ops[1] == 0:       # c.mv rd, rs: addi rd, rs, 0
+                        got = 0
+                    else:
+                        return None
+                    want = rv32.canon(PY, roles[idx], eval_value(rec['ops'][idx], lay, lay.start[rec['ln']]))
+                    width = 20 if roles[idx] == 'immU' else 12
+                    return (rv32.canon(PY, roles[idx], got) - want) % (1 << width)
+                da, db = deviation(a[0], lay_n), deviation(b[0], lay_c)
+                if da is not None and db is not None and da != db:
+                    bad('modes', rec, 'the immediate relates differently to its expression in the two modes: off by %d without compression, '
+                        'by %d with it (%r vs %r)' % (da, db, a, b))
